@@ -470,3 +470,297 @@ def try_bodies_around(mod: Module, fn: ast.AST, node: ast.AST) -> list[ast.Try]:
             out.append(p)
         child = p
     return out
+
+
+# --------------------------------------------------------------------------------------------------------------------
+# second preserving round: the strings an expression can denote (tables iterated with `for`), iteration in all its
+# spellings (for statement, comprehension clause, map), exhaustive consumption of a lazy iterable
+# --------------------------------------------------------------------------------------------------------------------
+_TABLE_WRAPPERS = {"tuple", "list", "dict", "frozenset", "set"}
+_MUTATORS = {"append", "extend", "insert", "pop", "remove", "clear", "update", "setdefault", "popitem", "add", "discard", "sort", "reverse",
+             "__setitem__", "__delitem__"}
+
+
+def _written_through(tree: ast.AST, name: str) -> bool:
+    """is the object bound to `name` changed in place anywhere under `tree` (item / attribute store, mutating method, augmented assignment)?"""
+    for n in ast.walk(tree):
+        if isinstance(n, (ast.Subscript, ast.Attribute)) and isinstance(n.ctx, (ast.Store, ast.Del)) and isinstance(n.value, ast.Name) and n.value.id == name:
+            return True
+        if isinstance(n, ast.Call) and isinstance(n.func, ast.Attribute) and n.func.attr in _MUTATORS and isinstance(n.func.value, ast.Name) and n.func.value.id == name:
+            return True
+        if isinstance(n, ast.AugAssign) and isinstance(n.target, ast.Name) and n.target.id == name:
+            return True
+        if isinstance(n, ast.Global) and name in n.names:
+            return True
+    return False
+
+
+def scope_chain(mod: Module, node: ast.AST) -> list[ast.AST]:
+    """the functions (and lambdas) enclosing `node`, innermost first"""
+    return [p for p in mod.parents(node) if isinstance(p, (ast.FunctionDef, ast.AsyncFunctionDef, ast.Lambda))]
+
+
+def _binds(fn: ast.AST, name: str) -> bool:
+    if any(a.arg == name for a in ast.walk(fn.args) if isinstance(a, ast.arg)):  # type: ignore[attr-defined]
+        return True
+    return any(isinstance(n, ast.Name) and n.id == name and isinstance(n.ctx, (ast.Store, ast.Del)) for n in own_nodes(fn))
+
+
+def binding_scope(mod: Module, at: ast.AST, name: str) -> Optional[ast.AST]:
+    """the innermost function around `at` that binds `name` (None: a name of the module / a builtin)"""
+    for fn in scope_chain(mod, at):
+        if _binds(fn, name):
+            return fn
+    return None
+
+
+def written_table(mod: Module, at: ast.AST, e: ast.AST, depth: int = 0) -> Optional[ast.AST]:
+    """the written-out table (a dict / list / tuple / set display) the expression `e`, standing at `at`, denotes: the display
+    itself, `tuple(<display>)` and the like, a local bound once to one and never changed in place, a module-level name bound
+    once to one and never changed in place.  None: not a constant table."""
+    if isinstance(e, (ast.Dict, ast.List, ast.Tuple, ast.Set)):
+        return e
+    if isinstance(e, ast.Call) and isinstance(e.func, ast.Name) and e.func.id in _TABLE_WRAPPERS and len(e.args) == 1 and not e.keywords:
+        return written_table(mod, at, e.args[0], depth)
+    if isinstance(e, ast.Name) and depth < 3:
+        fn = binding_scope(mod, at, e.id)
+        if fn is not None:
+            if any(a.arg == e.id for a in ast.walk(fn.args) if isinstance(a, ast.arg)):  # type: ignore[attr-defined]
+                return None
+            stores = [n for n in own_nodes(fn) if isinstance(n, ast.Name) and n.id == e.id and isinstance(n.ctx, (ast.Store, ast.Del))]
+            vals = local_defs(fn, e.id)
+            if len(stores) == 1 and len(vals) == 1 and not _written_through(fn, e.id):
+                return written_table(mod, stores[0], vals[0], depth + 1)
+            return None
+        vals = module_defs(mod, e.id)
+        if len(vals) == 1 and not module_rebinds(mod, e.id) and not _written_through(mod.tree, e.id):
+            return written_table(mod, mod.tree, vals[0], depth + 1)
+    return None
+
+
+def table_rows(mod: Module, at: ast.AST, it: ast.AST) -> Optional[list[ast.AST]]:
+    """what an iteration over `it` yields, one expression per round, when `it` is a constant table: the elements of a
+    sequence display, the keys of a dict, `<dict>.items()` / `.values()` / `.keys()`, `enumerate(<table>)` (pairs)"""
+    if isinstance(it, ast.Call) and isinstance(it.func, ast.Attribute) and it.func.attr in ("items", "values", "keys") and not it.args:
+        t = written_table(mod, at, it.func.value)
+        if isinstance(t, ast.Dict) and all(k is not None for k in t.keys):
+            if it.func.attr == "items":
+                return [ast.Tuple(elts=[k, v], ctx=ast.Load()) for k, v in zip(t.keys, t.values)]  # type: ignore[list-item]
+            return list(t.values) if it.func.attr == "values" else list(t.keys)  # type: ignore[arg-type]
+        return None
+    if isinstance(it, ast.Call) and isinstance(it.func, ast.Name) and it.func.id in ("enumerate", "reversed", "sorted", "iter") and len(it.args) >= 1:
+        rows = table_rows(mod, at, it.args[0])
+        if rows is None:
+            return None
+        if it.func.id == "enumerate":
+            return [ast.Tuple(elts=[ast.Constant(value=i), r], ctx=ast.Load()) for i, r in enumerate(rows)]
+        return rows
+    t = written_table(mod, at, it)
+    if isinstance(t, ast.Dict):
+        return [k for k in t.keys] if all(k is not None for k in t.keys) else None  # type: ignore[misc]
+    if isinstance(t, (ast.List, ast.Tuple, ast.Set)):
+        return None if any(isinstance(x, ast.Starred) for x in t.elts) else list(t.elts)
+    return None
+
+
+def _component(target: ast.AST, row: ast.AST, name: str) -> Optional[ast.AST]:
+    """the part of `row` that unpacking it into `target` binds to `name`"""
+    if isinstance(target, ast.Name):
+        return row if target.id == name else None
+    if isinstance(target, (ast.Tuple, ast.List)) and isinstance(row, (ast.Tuple, ast.List)) and len(target.elts) == len(row.elts) \
+            and not any(isinstance(x, ast.Starred) for x in list(target.elts) + list(row.elts)):
+        for t, r in zip(target.elts, row.elts):
+            if any(isinstance(x, ast.Name) and x.id == name for x in ast.walk(t)):
+                return _component(t, r, name)
+    return None
+
+
+def str_values(mod: Module, e: ast.AST, at: Optional[ast.AST] = None, depth: int = 0) -> Optional[set[str]]:
+    """the strings the expression `e` (standing at `at`, default: itself) can evaluate to, when that is decided by the text of
+    the module alone: a constant; either arm of a conditional expression / `x or y`; a look-up in a constant table (any row);
+    a name, through EVERY binding of it in its scope - plain assignment, unpacking of a display, target of a `for` / a
+    comprehension clause over a constant table (the component of each row at the name's position).  None: not decided
+    (a parameter, a call, an attribute ...)."""
+    at = e if at is None else at
+    if depth > 5:
+        return None
+    if isinstance(e, ast.Constant):
+        return {e.value} if isinstance(e.value, str) else None
+    if isinstance(e, ast.NamedExpr):
+        return str_values(mod, e.value, at, depth + 1)
+    if isinstance(e, ast.IfExp) or (isinstance(e, ast.BoolOp) and isinstance(e.op, ast.Or)):
+        parts = [e.body, e.orelse] if isinstance(e, ast.IfExp) else list(e.values)
+        out: set[str] = set()
+        for p in parts:
+            v = str_values(mod, p, at, depth + 1)
+            if v is None:
+                return None
+            out |= v
+        return out
+    if isinstance(e, ast.Subscript) or (isinstance(e, ast.Call) and isinstance(e.func, ast.Attribute) and e.func.attr == "get" and 1 <= len(e.args) <= 2):
+        base = e.value if isinstance(e, ast.Subscript) else e.func.value  # type: ignore[union-attr]
+        t = written_table(mod, at, base)
+        cells: list[ast.AST] = []
+        if isinstance(t, ast.Dict):
+            cells = list(t.values)
+        elif isinstance(t, (ast.List, ast.Tuple)) and isinstance(e, ast.Subscript):
+            ix = e.slice
+            if isinstance(ix, ast.Constant) and isinstance(ix.value, int) and -len(t.elts) <= ix.value < len(t.elts):
+                cells = [t.elts[ix.value]]
+            else:
+                cells = list(t.elts)
+        else:
+            return None
+        if isinstance(e, ast.Call) and len(e.args) == 2:
+            cells.append(e.args[1])
+        out = set()
+        for c in cells:
+            v = str_values(mod, c, at, depth + 1)
+            if v is None:
+                return None
+            out |= v
+        return out or None
+    if isinstance(e, ast.Name):
+        fn = binding_scope(mod, at, e.id)
+        if fn is None:
+            vals = module_defs(mod, e.id)
+            if len(vals) == 1 and not module_rebinds(mod, e.id):
+                return str_values(mod, vals[0], mod.tree, depth + 1)
+            return None
+        if any(a.arg == e.id for a in ast.walk(fn.args) if isinstance(a, ast.arg)):  # type: ignore[attr-defined]
+            return None
+        out = set()
+        n_bind = 0
+        for n in own_nodes(fn):
+            if not (isinstance(n, ast.Name) and n.id == e.id and isinstance(n.ctx, (ast.Store, ast.Del))):
+                continue
+            n_bind += 1
+            # the construct that binds it: climb out of the unpacking pattern
+            tgt: ast.AST = n
+            p = mod.parent.get(id(tgt))
+            while isinstance(p, (ast.Tuple, ast.List, ast.Starred)):
+                tgt, p = p, mod.parent.get(id(p))
+            comps: list[Optional[ast.AST]] = []
+            if isinstance(p, ast.Assign) and any(tgt is t for t in p.targets):
+                comps = [_component(tgt, p.value, e.id)]
+            elif isinstance(p, ast.AnnAssign) and p.target is tgt:
+                if p.value is None:
+                    n_bind -= 1
+                    continue
+                comps = [p.value]
+            elif isinstance(p, ast.NamedExpr) and p.target is tgt:
+                comps = [p.value]
+            elif isinstance(p, (ast.For, ast.comprehension)) and p.target is tgt:
+                rows = table_rows(mod, p, p.iter)
+                if rows is None:
+                    return None
+                comps = [_component(tgt, r, e.id) for r in rows]
+            else:
+                return None
+            for c in comps:
+                v = str_values(mod, c, p, depth + 1) if c is not None else None
+                if v is None:
+                    return None
+                out |= v
+        return out if n_bind and out else None
+    return None
+
+
+class IterSite:
+    """one place where a function goes through an iterable element by element: a `for` statement, one clause of a
+    comprehension / generator expression, or `map(f, <iterable>)`"""
+
+    def __init__(self, kind: str, node: ast.AST, target: Optional[ast.AST], it: ast.AST, owner: ast.AST):
+        self.kind, self.node, self.target, self.iter, self.owner = kind, node, target, it, owner
+
+    @property
+    def lazy(self) -> bool:
+        return self.kind == "map" or (self.kind == "clause" and isinstance(self.owner, ast.GeneratorExp))
+
+    def per_round(self) -> list[ast.AST]:
+        """the code run once per element"""
+        if self.kind == "for":
+            return list(self.node.body)  # type: ignore[attr-defined]
+        if self.kind == "clause":
+            c = self.owner
+            k = [i for i, g_ in enumerate(c.generators) if g_ is self.node][0]  # type: ignore[attr-defined]
+            out: list[ast.AST] = list(self.node.ifs)  # type: ignore[attr-defined]
+            for g_ in c.generators[k + 1:]:  # type: ignore[attr-defined]
+                out += [g_.iter] + list(g_.ifs)
+            out += [c.key, c.value] if isinstance(c, ast.DictComp) else [c.elt]  # type: ignore[attr-defined]
+            return out
+        return [self.owner.args[0]]  # type: ignore[attr-defined]   # map: the function applied
+
+    def skips(self) -> list[ast.AST]:
+        """what can end a round before its end, or the rounds before the last element: continue / break / return in the body of
+        a for statement; an `if` of this or a later clause of a comprehension"""
+        if self.kind == "for":
+            return [n for s_ in self.node.body for n in ast.walk(s_) if isinstance(n, (ast.Continue, ast.Break, ast.Return))]  # type: ignore[attr-defined]
+        if self.kind == "clause":
+            c = self.owner
+            k = [i for i, g_ in enumerate(c.generators) if g_ is self.node][0]  # type: ignore[attr-defined]
+            return [t for g_ in c.generators[k:] for t in g_.ifs]  # type: ignore[attr-defined]
+        return []
+
+
+def iter_sites(fn: ast.AST) -> list[IterSite]:
+    out: list[IterSite] = []
+    for n in own_nodes(fn, include_nested=True):
+        if isinstance(n, (ast.For, ast.AsyncFor)):
+            out.append(IterSite("for", n, n.target, n.iter, n))
+        elif isinstance(n, (ast.ListComp, ast.SetComp, ast.DictComp, ast.GeneratorExp)):
+            for g_ in n.generators:
+                out.append(IterSite("clause", g_, g_.target, g_.iter, n))
+        elif isinstance(n, ast.Call) and isinstance(n.func, ast.Name) and n.func.id == "map" and len(n.args) == 2 and not n.keywords:
+            out.append(IterSite("map", n, None, n.args[1], n))
+    return out
+
+
+_LAZY_PASS = {"chain", "chain.from_iterable", "itertools.chain", "itertools.chain.from_iterable", "iter"}
+_EAGER = {"list", "tuple", "sorted", "set", "frozenset"}
+
+
+def consumed_fully(mod: Module, fn: ast.AST, e: ast.AST, depth: int = 0) -> Optional[str]:
+    """how the lazy iterable `e` (a generator expression, a map object) is certainly run to its end in `fn`: it is handed -
+    directly or through iterators that pass every element on (chain, chain.from_iterable, iter, an enclosing generator
+    expression without filter) - to a constructor that reads all of it, to `<x> += ...`, or to a `for` statement without
+    break / return; or it is bound to a local whose only use is such a place.  None: not recognised (next(), islice, zip,
+    a filter in between, handed to a caller ...)."""
+    if depth > 6:
+        return None
+    p = mod.parent.get(id(e))
+    if isinstance(p, ast.Starred):
+        e, p = p, mod.parent.get(id(p))
+        if not (isinstance(p, ast.Call) and any(a is e for a in p.args)):
+            return None
+        # f(*gen): the unpacking reads all of it; what f does with the elements is f's matter only for lazy pass-throughs
+        return consumed_fully(mod, fn, p, depth + 1) if norm(p.func) in _LAZY_PASS else "unpacked into %s(...)" % norm(p.func)[:30]
+    if isinstance(p, ast.Call) and any(a is e for a in p.args):
+        name = norm(p.func)
+        if name in _EAGER and p.args[0] is e:
+            return "%s(...)" % name
+        if name in _LAZY_PASS:
+            return consumed_fully(mod, fn, p, depth + 1)
+        return None
+    if isinstance(p, ast.AugAssign) and p.value is e and isinstance(p.op, ast.Add):
+        return "%s += ..." % norm(p.target)[:30]
+    if isinstance(p, (ast.For, ast.AsyncFor)) and p.iter is e:
+        if p.orelse or any(isinstance(x, (ast.Break, ast.Return)) for s_ in p.body for x in ast.walk(s_)):
+            return None
+        return "for statement without break"
+    if isinstance(p, ast.comprehension) and p.iter is e:
+        owner = mod.parent.get(id(p))
+        if owner is None or any(g_.ifs for g_ in owner.generators):  # type: ignore[attr-defined]
+            return None
+        if isinstance(owner, ast.GeneratorExp):
+            return consumed_fully(mod, fn, owner, depth + 1)
+        return "comprehension"
+    if isinstance(p, (ast.Assign, ast.AnnAssign)) and p.value is e:
+        tg = p.targets if isinstance(p, ast.Assign) else [p.target]
+        if len(tg) == 1 and isinstance(tg[0], ast.Name):
+            nm = tg[0].id
+            stores = [n for n in own_nodes(fn, include_nested=True) if isinstance(n, ast.Name) and n.id == nm and isinstance(n.ctx, (ast.Store, ast.Del))]
+            uses = [n for n in own_nodes(fn, include_nested=True) if isinstance(n, ast.Name) and n.id == nm and isinstance(n.ctx, ast.Load)]
+            if len(stores) == 1 and len(uses) == 1:
+                return consumed_fully(mod, fn, uses[0], depth + 1)
+    return None
